@@ -588,7 +588,14 @@ func extX25519(fr *frame, args []value) value {
 					base, found = 0, true
 				}
 				if !found {
+					pmax := maxVarID(i, point)
 					for _, d := range cl.dhs {
+						if pmax < minVarID(i, d.out) {
+							// the point was fixed before this DH output existed: under
+							// A6/A9 it does not equal that (fresh, unpredictable) output
+							e.axiom(st.BNot(i.bytesEqTerm(point, d.out)))
+							continue
+						}
 						if e.branch(i.bytesEqTerm(point, d.out)) {
 							base, rawPt, scalars, found = d.base, d.rawPt, append([][]value(nil), d.scalars...), true
 							break
@@ -620,6 +627,9 @@ func extX25519(fr *frame, args []value) value {
 	if base > 0 {
 		if lo, ok := e.logs.objs[fmt.Sprintf("loworder%d", base)].(*Term); ok {
 			if e.branch(lo) {
+				// the predicate is uninterpreted: a model of this path need not be a
+				// low-order point natively, so the path is not used as a replay witness
+				e.noWitness = true
 				return tuple{[]value(nil), newErr(i, "bad input point: low order point")}
 			}
 		}
@@ -750,4 +760,28 @@ func extScryptKey(fr *frame, args []value) value {
 
 func (i *interpreter) kdfSymbolic(kind string, in [][]value, n int) []value {
 	return i.kdf(kind, in, n, nil)
+}
+
+func maxVarID(i *interpreter, b []value) int {
+	m := -1
+	for _, x := range b {
+		for _, v := range i.eng.st.VarsOf(i.termOf(x)) {
+			if v > m {
+				m = v
+			}
+		}
+	}
+	return m
+}
+
+func minVarID(i *interpreter, b []value) int {
+	m := 1 << 60
+	for _, x := range b {
+		for _, v := range i.eng.st.VarsOf(i.termOf(x)) {
+			if v < m {
+				m = v
+			}
+		}
+	}
+	return m
 }
